@@ -15,9 +15,12 @@ from rl import torch
 
 
 def run_episode_obs(env, td0, choose, observe: Callable, max_steps: int = 10_000, extra_pad: int = 0,
-                    forced: Optional[List[List[int]]] = None):
-    """Like `rl.run_episode`, plus `obs[r][t]` = `observe(td, r)` in the state after t actions."""
+                    forced: Optional[List[List[int]]] = None, post_reset: Optional[Callable] = None):
+    """Like `rl.run_episode`, plus `obs[r][t]` = `observe(td, r)` in the state after t actions.
+    `post_reset(td)` may pin what `reset` drew at random (so that a row can be re-run with the same draw)."""
     td = env.reset(td0.clone())
+    if post_reset is not None:
+        post_reset(td)
     B = td.batch_size[0]
     ep = rl.Episode(B)
     ep.obs = [[] for _ in range(B)]
@@ -55,6 +58,19 @@ def run_episode_obs(env, td0, choose, observe: Callable, max_steps: int = 10_000
     ep.steps = t
     ep.td = td
     return ep
+
+
+def gen_points_box(rng, m: int):
+    """exact-grid points with integral pairwise distances (`geom.gen_points`), in the unit box or — one time in three —
+    in a scaled and/or shifted box (coordinates up to ±8, still exact in float32): magnitudes other than [0,1]²"""
+    import geom
+
+    pts = geom.gen_points(rng, m)
+    if rng.random() < 0.34:
+        sc = rng.choice([1, 2, 4])
+        dx, dy = rng.choice([0, 1, -1, 3, -4]) * geom.GRID, rng.choice([0, 1, -2, 4]) * geom.GRID
+        pts = [(x * sc + dx, y * sc + dy) for (x, y) in pts]
+    return pts
 
 
 def chunked(run):
@@ -109,8 +125,9 @@ def check_batch_independence(ctx, ad, groups_quick: int = 10, groups_thorough: i
             continue
         try:
             rew_b = ad.real_reward_ticks(env, ep.td, rl.actions_tensor(ep))
+            extra_b = ad.extra_rewards(env, ep.td, rl.actions_tensor(ep)) if hasattr(ad, "extra_rewards") else {}
         except ValueError:
-            rew_b = None
+            rew_b, extra_b = None, {}
         lines = [ad.line("episode", insts[r], ep.actions[r]) for r in range(B)]
         replies = ctx.driver.ask_many(lines)
         fs = []
@@ -146,8 +163,18 @@ def check_batch_independence(ctx, ad, groups_quick: int = 10, groups_thorough: i
                 continue
             try:
                 rew_s = ad.real_reward_ticks(env, ep1.td, rl.actions_tensor(ep1))[0]
+                extra_s = ad.extra_rewards(env, ep1.td, rl.actions_tensor(ep1)) if hasattr(ad, "extra_rewards") else {}
             except ValueError:
                 continue
+            for field, vals in extra_b.items():  # further reward modes evaluated on the same final states
+                if field in fs[r] and int(fs[r][field]) != vals[r]:
+                    ctx.disagreement(f"{ad.name}: {field} of a batched row differs from the model run on the same actions",
+                                     {"inst": insts[r], "actions": ep.actions[r], "real": vals[r], "model": fs[r][field]})
+                if extra_s[field][0] != vals[r]:
+                    ctx.violation(f"{ad.name}:batch-dependence:{field}",
+                                  f"{field} differs between the solo run and the batched run (same instance, same actions)",
+                                  {"inst": insts[r], "actions": solo_actions, "solo": extra_s[field][0], "batched": vals[r],
+                                   "row": r, "B": B})
             if rew_s != rew_b[r]:
                 key = ad.reward_diff_key(insts[r], fs[r], rew_s, rew_b[r])
                 ctx.violation(key, "reward differs between the solo run and the batched (padded) run of the same "
@@ -156,3 +183,108 @@ def check_batch_independence(ctx, ad, groups_quick: int = 10, groups_thorough: i
                                "solo_reward_ticks": rew_s, "batched_reward_ticks": rew_b[r], "row": r, "B": B,
                                "lean_line": lines[r]})
         ctx.sample({"env": ad.name, "n": n, "B": B, "pad": pad, "steps": ep.steps})
+
+
+# ------------------------------------------------------------------------------------------------
+# C05 on tiny instances, driven inside heterogeneous batches
+# ------------------------------------------------------------------------------------------------
+def check_completeness_batched(ctx, P, insts_quick: int, insts_thorough: int, chunk: int = 30):
+    """C05: every candidate complete solution of a tiny instance is (a) judged by the Lean Spec and (b) driven
+    step by step through the REAL mask — as rows 1..k of a batch whose first and last rows are companion instances
+    with different per-row parameters following their own random admissible actions.  Judged on the real mask:
+      * a Spec-feasible canonical solution must be admitted all the way and recognised as finished;
+      * the best objective over the solutions the real mask lets through must equal the best objective over the
+        Spec-feasible ones (a solution that the mask admits although the Spec rejects it, and that beats the feasible
+        optimum, is a witness).
+    `P` supplies: name, instances(ctx, g) -> (inst, [companions]), candidates(inst), env_for(inst), to_td(insts),
+    after_reset(td, r) -> dict merged into the row's instance, line(inst, actions), obj_fields,
+    hide_key(inst, cand, t, mask, f), known_reachable(inst, cand, f)."""
+    total = ctx.budget(insts_quick, insts_thorough)
+    for g in range(total):
+        inst, comps = P.instances(ctx, g)
+        env = P.env_for(inst)
+        cands = list(P.candidates(inst))
+        rows = []  # per candidate: dict(cand, inst_row, blocked, done)
+        for k0 in range(0, len(cands), chunk):
+            part = cands[k0: k0 + chunk]
+            batch = [comps[0]] + [inst] * len(part) + [comps[-1]]
+            td = env.reset(P.to_td(batch))
+            B = len(batch)
+            infos = [P.after_reset(td, r) for r in range(B)]
+            recs = [{"cand": c, "inst": dict(inst, **infos[1 + j]), "blocked": None, "done": None} for j, c in enumerate(part)]
+            L = max(len(c) for c in part)
+            for t in range(L):
+                mask = td["action_mask"]
+                acts = []
+                for r in range(B):
+                    feas = [j for j, b in enumerate(mask[r].tolist()) if b]
+                    if r == 0 or r == B - 1:
+                        acts.append(ctx.rng.choice(feas) if feas else 0)
+                        continue
+                    rec = recs[r - 1]
+                    c = rec["cand"]
+                    if t < len(c) and rec["blocked"] is None:
+                        if bool(mask[r, c[t]]):
+                            acts.append(c[t])
+                            continue
+                        rec["blocked"] = (t, rl.mask_str(mask[r]))
+                    acts.append(feas[0] if feas else 0)
+                td.set("action", torch.tensor(acts, dtype=torch.long))
+                td = env.step(td)["next"]
+                dn = td["done"].reshape(B).tolist()
+                for j, rec in enumerate(recs):
+                    if t + 1 == len(rec["cand"]):
+                        rec["done"] = bool(dn[1 + j])
+            rows += recs
+        replies = ask_chunked(ctx, [P.line(rec["inst"], rec["cand"]) for rec in rows])
+        feas_best = {k: None for k in P.obj_fields}
+        n_feas = n_reach = 0
+        for rec, rep in zip(rows, replies):
+            f = parse_fields(rep)
+            rec["f"] = f
+            if "feas" not in f:
+                ctx.disagreement(f"{P.name}: driver error", {"reply": rep[:300]})
+                continue
+            if f["feas"] == "1":
+                n_feas += 1
+                for k in P.obj_fields:
+                    v = int(f[k])
+                    feas_best[k] = v if feas_best[k] is None else min(feas_best[k], v)
+        for rec in rows:
+            f = rec.get("f", {})
+            if "feas" not in f:
+                continue
+            c, ri = rec["cand"], rec["inst"]
+            reach = rec["blocked"] is None and rec["done"] is True
+            n_reach += int(reach)
+            ctx.case((P.name, repr(ri), tuple(c)))
+            if (f.get("adm") == "1") != (rec["blocked"] is None):
+                ctx.disagreement(f"{P.name}: model and real mask disagree on a candidate solution",
+                                 {"inst": ri, "solution": c, "model_admits": f.get("adm"), "real_blocked": rec["blocked"]})
+            if f["feas"] == "1":
+                if rec["blocked"] is not None:
+                    t, m = rec["blocked"]
+                    ctx.violation(P.hide_key(ri, c, t, m, f), "a feasible solution (Lean Spec) is not offered by the real mask",
+                                  {"inst": ri, "solution": c, "blocked_at_step": t, "mask": m, "companions": comps})
+                elif not rec["done"]:
+                    ctx.violation(f"{P.name}:feasible-not-done", "feasible complete solution not recognised as finished",
+                                  {"inst": ri, "solution": c})
+            elif reach:
+                ctx.count(f"{P.name}.mask-admits-spec-infeasible-solution")
+                if P.known_reachable(ri, c, f):
+                    ctx.count(f"{P.name}.…explained-by-known-finding")
+                    continue
+                for k in P.obj_fields:
+                    if feas_best[k] is not None and int(f[k]) < feas_best[k]:
+                        ctx.violation(f"{P.name}:mask-optimum-beats-feasible-optimum",
+                                      "the best solution reachable through the real mask is better than the brute-force optimum: "
+                                      "the mask admits a complete solution that the Lean Spec rejects",
+                                      {"inst": ri, "solution": c, "objective": k, "value_ticks": int(f[k]),
+                                       "feasible_optimum_ticks": feas_best[k], "spec_verdict": f.get("why"), "companions": comps})
+                        break
+        ctx.count(f"{P.name}.candidates", len(rows))
+        ctx.count(f"{P.name}.feasible", n_feas)
+        ctx.count(f"{P.name}.mask-reachable", n_reach)
+        ex = next((rec["cand"] for rec in rows if rec.get("f", {}).get("feas") == "1"), None)
+        ctx.sample({"env": P.name, "inst": inst, "companions": comps, "n_candidates": len(rows), "n_feasible": n_feas,
+                    "n_mask_reachable": n_reach, "feasible_optimum_ticks": feas_best, "example": ex})
